@@ -244,6 +244,34 @@ def run_proc(spec, res):
                 res.violation('not-evaluated-exactly-once', case, {'starts': starts}, sig=sig)
             if r['len'] != n:
                 res.violation('len-differs', case, {'len': r['len']}, sig=sig)
+    # deep buffers (many times the number of workers) and lengths that are
+    # multiples / non-multiples of buffer_size // (k * workers): the sizes at
+    # which a stage starts to hand several examples to a worker at once
+    for entry, w, b, n in (('pft', 1, 32, 4), ('pft', 2, 64, 6), ('pft', 2, 100, 9),
+                           ('pft', 3, 96, 8), ('parmap', 2, 64, 6), ('pft', 2, 128, 13),
+                           ('pft', 1, 64, 12)):
+        sc = {'entry': entry, 'n': n, 'b': b, 'w': w, 'backend': be,
+              'delays': [0.0, 0.01], 'stop': ['exhaust']}
+        r = pp.run_case(sc)
+        case = {'scenario': sc}
+        sig = {'entry': entry, 'backend': be, 'harness': 'process-pool', 'buffer': 'deep'}
+        if r.get('timeout') or r.get('crash'):
+            res.inconclusive_because(f'process-pool case failed to run: {str(r)[:300]}')
+            continue
+        res.count('process_pool_executions')
+        res.count('process_pool_deep_buffer_executions')
+        res.case(('proc-deep', be, entry, w, b, n), True)
+        first = r['first']
+        starts = [i for w_, i, _, _ in r['records'] if w_ == 'start']
+        if pp.delivered(first) != [('f', i) for i in range(n)] or \
+                first['outcome'] != 'exhausted':
+            res.violation('delivered-sequence-differs', case,
+                          {'delivered': first['delivered'], 'outcome': first['outcome'],
+                           'extra': first['extra']}, sig=sig)
+        elif sorted(starts) != list(range(n)):
+            res.violation('not-evaluated-exactly-once', case, {'starts': starts}, sig=sig)
+        elif r['len'] != n:
+            res.violation('len-differs', case, {'len': r['len']}, sig=sig)
 
 
 def run_pipe(spec, res):
